@@ -82,7 +82,7 @@ theorem free_ok (hs hs' : Hist) (id : Nat) (os : List OsDir) (out : Out) (hi : I
       ∀ b1 ∈ hs'.live, ∀ b2 ∈ hs'.live, b1.ptr ≠ b2.ptr →
         b1.ptr + b1.size ≤ b2.ptr ∨ b2.ptr + b2.size ≤ b1.ptr := by
   obtain ⟨b, hb, hl, hd⟩ := free_ok_partial hs hs' id os out h
-  exact ⟨b, hb, hl, hd (wf_step hi trivial h)⟩
+  exact ⟨b, hb, hl, hd (wf_step (op := .free id) (os := os) hi (by unfold OpOk; trivial) h)⟩
 
 /-- **a failed operation loses nothing and the heap stays fully usable**: after a refused mmap the state is
 exactly the old one (`oom_null`), so it still satisfies the invariant and every later operation is covered by the
